@@ -11,6 +11,9 @@
 //!   lit from_str|from_string <text>, from_char <x>, from_u32 <x>, from_slice|from_vec <vector>
 //!                               => <string>;<is_good>
 //!   lit is_good <string>        => 0/1
+//!   lit is_unicode <string>     => 0/1
+//!   lit to_unicode <string>     => <text>   chars of `to_unicode_string()`
+//!   lit uni_roundtrip <string>  => <string>;<is_good>   `SmtString::from(s.to_unicode_string().as_str())`
 //!   lit re_str_ok <string>      => 1 if `ReManager::str(&s)` returns (PANIC if an assertion fires)
 
 use crate::rng::Rng;
@@ -123,6 +126,16 @@ fn follow_up(t: &mut Trace, cx: &mut Ctx, s: &SmtString) {
     }
     t.count(&format!("re_str_ok={}", r));
     t.op(&format!("lit re_str_ok {}", sv), &r, true);
+    // the way out of the crate: is_unicode, to_unicode_string, and the String read back
+    let uni = guarded(|| p_bool(s.is_unicode()));
+    t.count(&format!("is_unicode={}", uni));
+    t.op(&format!("lit is_unicode {}", sv), &uni, true);
+    t.op(&format!("lit to_unicode {}", sv), &guarded(|| p_nats(&cps_of(&s.to_unicode_string()))), true);
+    t.op(
+        &format!("lit uni_roundtrip {}", sv),
+        &guarded(|| ctor_res(&SmtString::from(s.to_unicode_string().as_str()))),
+        true,
+    );
 }
 
 fn op_from_text(t: &mut Trace, cx: &mut Ctx, cps: &[u32]) {
@@ -240,7 +253,7 @@ const TRICKY: [u32; 16] =
     [0, 0x1f, 34, 48, 52, 92, 97, 117, 123, 125, 0x7e, 0x7f, 0x80, 0xFFFF, 0x10000, 0x2FFFF];
 
 pub fn run(t: &mut Trace, rng: &mut Rng, thorough: bool) {
-    t.rule = "parse: ALL texts up to length 5 (thorough: 6) over {\\,u,{,},0,2,a,F,g,3}, all `\\u`+4 and `\\u{`+4 (thorough: +5) continuations over the same alphabet, brace/plain escapes of boundary values (0, 0x7f, 0xFFFF, 0x10000, 0x2FFFE..0x30001, 0xFFFFF, 0x100000) with 1..6 digits in both cases followed by nothing / } / a digit / a backslash, seeded random texts of length 11 built from escape fragments, every printable ASCII character substituted at and inserted before every position of nine well-formed / nearly well-formed escapes, texts with code points above 0x2FFFF; display+roundtrip: ALL strings up to length 3 over the 16-character set {0,0x1f,\",0,4,\\,a,u,{,},0x7e,0x7f,0x80,0xFFFF,0x10000,0x2FFFF}, the printed bodies of those of length <= 2 taken as strings again (strings that spell escapes), random longer strings; char_to_smt/smt_char_as_string: 0..0x200, boundaries, > 0x2FFFF up to u32::MAX; constructors: Rust strings/chars incl. U+2FFFF, U+30000, U+10FFFF, u32 vectors incl. u32::MAX, each result followed by is_good and ReManager::str. A case counts as non-trivial when the text contains a backslash or a code point > 0x2FFFF (parse), when the string has a character that is not printed as itself (display/roundtrip); all constructor/char cases count".into();
+    t.rule = "parse: ALL texts up to length 5 (thorough: 6) over {\\,u,{,},0,2,a,F,g,3}, all `\\u`+4 and `\\u{`+4 (thorough: +5) continuations over the same alphabet, brace/plain escapes of boundary values (0, 0x7f, 0xFFFF, 0x10000, 0x2FFFE..0x30001, 0xFFFFF, 0x100000) with 1..6 digits in both cases followed by nothing / } / a digit / a backslash, seeded random texts of length 11 built from escape fragments, every printable ASCII character substituted at and inserted before every position of nine well-formed / nearly well-formed escapes, texts with code points above 0x2FFFF; display+roundtrip: ALL strings up to length 3 over the 16-character set {0,0x1f,\",0,4,\\,a,u,{,},0x7e,0x7f,0x80,0xFFFF,0x10000,0x2FFFF}, the printed bodies of those of length <= 2 taken as strings again (strings that spell escapes), random longer strings; char_to_smt/smt_char_as_string: 0..0x200, boundaries, > 0x2FFFF up to u32::MAX; constructors: Rust strings/chars incl. U+2FFFF, U+30000, U+10FFFF, u32 vectors incl. u32::MAX, each result followed by is_good, ReManager::str, is_unicode, to_unicode_string and the String read back by From<&str> (vectors over {0,a,0xD7FF,0xD800,0xDFFF,0xE000,0x2FFFF,0x30000,u32::MAX}). A case counts as non-trivial when the text contains a backslash or a code point > 0x2FFFF (parse), when the string has a character that is not printed as itself (display/roundtrip); all constructor/char cases count".into();
     let mut cx = Ctx { rm: ReManager::new() };
 
     // ---- regression corpus (DESIGN.md §9: D4, D6)
@@ -432,7 +445,7 @@ pub fn run(t: &mut Trace, rng: &mut Rng, thorough: bool) {
     {
         op_from_u32(t, &mut cx, x);
     }
-    let words: [u32; 6] = [0, 97, 0xD800, 0x2FFFF, 0x30000, u32::MAX];
+    let words: [u32; 9] = [0, 97, 0xD7FF, 0xD800, 0xDFFF, 0xE000, 0x2FFFF, 0x30000, u32::MAX];
     for n in 0..=3 {
         for_words(&[], &words, n, &mut |w| op_from_vec(t, &mut cx, w));
     }
